@@ -60,6 +60,12 @@ Proof. exact not_rok_conn_execute. Qed.
 Print Assumptions c29_execute_always_awaits.
 
 (* ---- 3. cancellation ---- *)
+(* ghost flag [oom] of the model: set when a disconnect error leads to Pool._invalidate, when terminate()
+   is cancelled, and - ORDERING OBLIGATION - when Pool._close_connection is entered for a connection
+   whose record is at that moment waiting in the pool queue (closing awaits the driver, so another task
+   could take the record with the connection that is being closed).  [Done] contains oom = false, so the
+   safety theorems below also say: a record is invalidated (its connection detached) BEFORE it becomes
+   available to another checkout. *)
 (* what "safe" means, spelled out: nothing is checked out (checkedout() = 0), every record handed out
    came back exactly once, every pooled connection is alive and no connection of the driver is left in
    a transaction, nothing waits for the garbage collector *)
